@@ -45,6 +45,7 @@ def run(prog, tier, extra=None):
     R1 = res.rule("C19.co-mutation", "a body that changes Wallet.unspent_slips changes available_balance in the matching direction and vice versa", floor=7)
     R3 = res.rule("C19.per-iteration", "loops that spend slips subtract the amount and queue the removal together in each iteration", floor=1)
     R4 = res.rule("C19.sub-without-removal", "every path that subtracts from the balance removes a slip from the unspent list", floor=3)
+    R5 = res.rule("C19.reserve-then-fail", "after Wallet::generate_slips reserved slips no caller returns an error (nothing would be pending for them)", floor=2)
     R2 = res.rule("C19.private", "available_balance is written only inside impl Wallet (the field is private)", floor=1)
     fa = FieldAnalysis(prog)
     for b in prog.all_bodies():
@@ -176,6 +177,38 @@ def run(prog, tier, extra=None):
                 res.add(Finding(R2, "C19.private|field", "Wallet.available_balance is public: any crate can set it without touching unspent_slips", "saito-core/src/core/consensus/wallet.rs"))
             else:
                 res.sample({"rule": R2, "field": "available_balance", "visibility": f["vis"][:40]})
+    # R5: Wallet::generate_slips marks the slips it hands out as spent, takes them off the unspent list and lowers the balance. That is
+    # only consistent with the ledger if a transaction spending them follows (it becomes a pending transaction). A caller that can
+    # return Err / None after the call leaves slips reserved for nothing: the wallet's unspent list falls below "spendable minus pending".
+    from .. import gate as _gate
+    from ..paths import Explorer as _Ex, describe_path as _dp
+    GS = "saito_core::core::consensus::wallet::Wallet::generate_slips"
+    R5_EXCEPTIONS = {
+        "saito_core::core::consensus::wallet::Wallet::create_bound_transaction::{closure#0}":
+            "the only later Err is `generated_outputs.into_iter().next()` being None, and generate_slips always returns exactly one output (the change slip)",
+    }
+    n_gs = 0
+    for b in prog.all_bodies():
+        if "::tests::" in b.path or "/test/" in b.file or b.is_promoted:
+            continue
+        for bb, t in b.calls():
+            if (t.get("res") or t.get("callee")) != GS:
+                continue
+            n_gs += 1
+            res.instance(R5)
+            nxt = t.get("t")
+            acc = _gate.make_accept(b, return_tags={"Err", "None"})
+            found = _Ex(b).explore(nxt, accept=lambda x, env: acc(x, env) if acc(x, env) in ("return-Err", "return-None") else None) if nxt is not None else {}
+            if not found:
+                res.sample({"rule": R5, "site": b.loc(bb), "verdict": "no failure exit after the reservation"})
+            elif b.path in R5_EXCEPTIONS:
+                res.sample({"rule": R5, "site": b.loc(bb), "exception": R5_EXCEPTIONS[b.path]})
+            else:
+                kind, path = sorted(found.items())[0]
+                res.add(Finding(R5, "C19.reserve-then-fail|%s" % b.path, "%s can return an error after Wallet::generate_slips has reserved slips: they stay marked spent and off the "
+                                "unspent list although no transaction spends them" % b.path.split("::", 3)[-1].replace("::{closure#0}", ""), b.loc(path[-1]), {"path": _dp(b, path)}))
+    if n_gs == 0:
+        res.add(Finding(R5, "C19.reserve-then-fail|anchors", "no caller of Wallet::generate_slips found (anchor moved?)", None))
     res.explanation = (
         "Decides the structural clause that the balance and the unspent list move together: every body that inserts into / removes from / clears "
         "Wallet.unspent_slips also adds to / subtracts from / zeroes available_balance and vice versa, and nothing outside impl Wallet can write the balance. "
